@@ -228,10 +228,7 @@ def highestbar(
         if current is None:
             continue
 
-        if high is None:
-            high = current
-
-        if high < current:
+        if high is None or high < current:
             high = current
             distance = idx
 
@@ -257,10 +254,7 @@ def lowestbar(
         if current is None:
             continue
 
-        if low is None:
-            low = current
-
-        if low > current:
+        if low is None or low > current:
             low = current
             distance = idx
 
